@@ -118,13 +118,13 @@ Ltac ref_auto :=
       end ].
 
 Lemma parse_unary_ref st toks u : refines (parse_unary true st toks u) (parse_unary false st toks u).
-Proof. unfold parse_unary. destruct u; ref_auto. Qed.
+Proof. unfold parse_unary, lower_unary. destruct u; ref_auto. Qed.
 
 Lemma parse_binary_ref st toks bo : refines (parse_binary true st toks bo) (parse_binary false st toks bo).
-Proof. unfold parse_binary. destruct bo; ref_auto. Qed.
+Proof. unfold parse_binary, lower_binary. destruct bo; ref_auto. Qed.
 
 Lemma parse_ternary_ref st toks b : refines (parse_ternary true st toks b) (parse_ternary false st toks b).
-Proof. unfold parse_ternary. destruct b; ref_auto. Qed.
+Proof. unfold parse_ternary, lower_ternary. destruct b; ref_auto. Qed.
 
 Lemma parse_line_ref st toks : refines (parse_line true st toks) (parse_line false st toks).
 Proof.
